@@ -24,6 +24,7 @@ package main
 //   klocked                        W:L (locked, nothing cached) | W:U per keystore
 //   kkeys                          (bucket, key name) set of the keystore bucket tree
 //   kscan                          raw scan of database KV + files + exports + errors for secrets: clean | LEAK:...
+//   txlock T LOCK PAYLOAD          set lock time / payload of a defined, never mined transaction            ok
 //   sign W PASS FLAG T             SignRawTx on a copy of defined transaction T    ok | err:<class>   (+ !<failed oracle>)
 //   autosign W PASS FLAG KIND ARGS.. must|may   wallet-built transaction (AutoCreateRawTransaction /
 //                                  CreateStakingTransaction / CreateBindingTransaction) + SignRawTx, self-checking: pass | FAIL:<why>
@@ -222,6 +223,8 @@ func (x *secExec) Exec(a []string) string {
 		return x.keys()
 	case a[0] == "kscan" && len(a) == 1:
 		return x.scan()
+	case a[0] == "txlock" && len(a) == 4:
+		return x.txLock(a[1], a[2], a[3])
 	case a[0] == "sign" && len(a) == 5:
 		return x.sign(a[1], a[2], a[3], a[4])
 	case a[0] == "autosign" && len(a) >= 6:
@@ -767,7 +770,24 @@ func leftPad32(b []byte) []byte {
 // deriveSecrets recomputes, independently of the wallet, everything that follows from
 // (mnemonic, passphrase): entropy, BIP-39 seed, the extended private keys on the path
 // m/44'/coin'/1'/{0,1}/i and the 32-byte scalars of the first nExt / nInt addresses.
+var secretsCache = map[string]*walletSecrets{}
+
 func deriveSecrets(w, mnemonic, pass string, nExt, nInt uint32) (*walletSecrets, error) {
+	ck := fmt.Sprintf("%s|%s|%s|%d|%d", w, mnemonic, pass, nExt, nInt)
+	if c, ok := secretsCache[ck]; ok {
+		return c, nil
+	}
+	if len(secretsCache) > 4096 {
+		secretsCache = map[string]*walletSecrets{}
+	}
+	ws, err := deriveSecretsUncached(w, mnemonic, pass, nExt, nInt)
+	if err == nil {
+		secretsCache[ck] = ws
+	}
+	return ws, err
+}
+
+func deriveSecretsUncached(w, mnemonic, pass string, nExt, nInt uint32) (*walletSecrets, error) {
 	ws := &walletSecrets{}
 	add := func(what string, b []byte) {
 		if len(b) > 0 {
@@ -1227,6 +1247,22 @@ func (x *secExec) signCore(pass, flag string, orig *wire.MsgTx) (string, string)
 		bad = "left-unlocked"
 	}
 	return cls, bad
+}
+
+// txlock T LOCK PAYLOAD: set lock time and payload of a defined (never mined) transaction before signing it.
+func (x *secExec) txLock(t, lock, payload string) string {
+	ti, ok := x.e.txs[t]
+	lt, err := strconv.ParseUint(lock, 10, 64)
+	pl, ok2 := unhexTok(payload)
+	if !ok || err != nil || !ok2 {
+		return "bad-op"
+	}
+	delete(x.e.txByHash, ti.hash)
+	ti.msg.LockTime = lt
+	ti.msg.Payload = append(pl, []byte(t)...) // keep transaction ids distinct per name
+	ti.hash = ti.msg.TxHash()
+	x.e.txByHash[ti.hash] = ti
+	return "ok"
 }
 
 func (x *secExec) sign(w, passHex, flagT, t string) string {
